@@ -89,6 +89,18 @@ def jobs_schema(tier):
                     p["r%dtn" % r] = 1 + (r + kinds[r]) % 2
                     p["r%dxn" % r] = (depths[r] + kinds[r]) % 3
                 jobs.append(dict(base, harness="VerifC04ParseResolveRows", params=p))
+    # schema.New: rows at the import level
+    for nr in (1, 2):
+        for kinds in itertools.product(range(8), repeat=nr):
+            if nr == 2 and q and (kinds[0] * 3 + kinds[1]) % 4:
+                continue
+            p = {"rows": nr, "alpha": 1, "sys": 1 if sum(kinds) % 2 else 3, "vattr": sum(kinds) % 3 == 0}
+            p["vattr"] = 1 if p["vattr"] else 0
+            for r in range(nr):
+                p["i%dk" % r] = kinds[r]
+                p["i%dtn" % r] = 1 + (r + kinds[r]) % 2
+                p["i%dxn" % r] = 1 + (kinds[r] + r) % 2
+            jobs.append(dict(base, harness="VerifC04SchemaNewRows", params=p))
     return jobs
 
 
